@@ -20,7 +20,7 @@ props.prop(
     not_decided='numerical agreement (floating point), correctness of the independent-axis shortcut (dependent_axes)',
     assumptions=['numpy.linalg.inv inverts'])
 props.also('C15',
-           'that index arrays are broadcast against each other before the transformation; C order of the flatten / reshape pairs in the coordinate helpers')
+           'that index arrays are broadcast against each other before the transformation; C order of the flatten / reshape pairs in the coordinate helpers; that the closure loop behind dependent_axes stops only at a fixed point of both masks')
 
 AFF = 'glue.core.coordinates.AffineCoordinates'
 
